@@ -12,6 +12,7 @@ import (
 	"go.nanomsg.org/mangos/v3/protocol/xstar"
 	_ "go.nanomsg.org/mangos/v3/transport/inproc"
 	"go.nanomsg.org/mangos/v3/vh/kit"
+	"go.nanomsg.org/mangos/v3/vh/vt"
 	"go.nanomsg.org/mangos/v3/vz/vexplore"
 	"go.nanomsg.org/mangos/v3/vz/vsched"
 )
@@ -73,6 +74,7 @@ func init() {
 		}
 		out = append(out, &vexplore.Scenario{Name: "payload-sequences", Mode: "enum", Reset: kit.ResetGlobals, Body: payloads, NeedCounters: []string{"empty-payload-delivered", "header-like-payload-delivered"}})
 		out = append(out, &vexplore.Scenario{Name: "star-chains-within-hop-limit", Mode: "enum", Reset: kit.ResetGlobals, Body: starChain, NeedCounters: []string{"far-end-reached-at-exact-limit"}})
+		out = append(out, &vexplore.Scenario{Name: "xbus-forward-after-peer-change", Mode: "enum", Reset: kit.ResetGlobals, Body: xbusPeerChange, NeedCounters: []string{"forwarded-to-newcomer"}})
 		out = append(out, &vexplore.Scenario{Name: "xstar-raw-forward", Mode: "sched", Bound: b, Reset: kit.ResetGlobals, Body: xstarRaw})
 		return out
 	})
@@ -367,6 +369,52 @@ func starChain() {
 			_ = s.Close()
 		}
 	})
+}
+
+// xbusPeerChange: a raw BUS socket (a forwarder) has received a message from peer A and still
+// holds it when A disconnects and a new peer C connects (free choice: 0-2 other connections come
+// and go in between).  When the message is then re-sent it goes to every peer except the one it
+// came from - A has gone, so to B and to the newcomer C alike.
+func xbusPeerChange() {
+	between := kit.ChooseFree(3)
+	s, err := xbus.NewSocket()
+	must(err, "NewSocket")
+	ep := vt.Get("xbpc")
+	must(s.Listen("vt://xbpc"), "Listen")
+	b := ep.Connect()
+	a := ep.Connect() // the newest connection
+	kit.Quiesce()
+	a.Deliver([]byte("held-by-the-forwarder"))
+	rc := kit.Start("RecvMsg", func() (interface{}, error) { return s.RecvMsg() })
+	kit.Quiesce()
+	if !rc.Done() || rc.Err != nil {
+		kit.Failf("setup", "RecvMsg done=%v %s", rc.Done(), kit.ErrName(rc.Err))
+	}
+	m := rc.Val.(*mangos.Message)
+	a.DropNow()
+	kit.Quiesce()
+	for i := 0; i < between; i++ {
+		x := ep.Connect()
+		kit.Quiesce()
+		x.DropNow()
+		kit.Quiesce()
+	}
+	c := ep.Connect()
+	kit.Quiesce()
+	sc := kit.Start("SendMsg", func() (interface{}, error) { return nil, s.SendMsg(m) })
+	kit.Quiesce()
+	if !sc.Done() || sc.Err != nil {
+		kit.Failf("send-stuck", "SendMsg done=%v %s", sc.Done(), kit.ErrName(sc.Err))
+	}
+	for name, p := range map[string]*vt.Pipe{"the peer that was there all along": b, "the newcomer": c} {
+		l := p.SentLog()
+		if len(l) != 1 || string(l[0].Data) != "held-by-the-forwarder" {
+			kit.Failf("forward-missing", "a raw BUS socket re-sent a message it had received from a peer that has gone since: %s got %d message(s)", name, len(l))
+		}
+	}
+	kit.Count("forwarded-to-newcomer")
+	kit.Observe("%d", between)
+	kit.Must("Close", func() { _ = s.Close() })
 }
 
 // xstarRaw: a raw STAR hub forwards what it receives to all its other peers by itself
